@@ -3,6 +3,7 @@ Model Lef/LefLex.v + Lef/LefParse.v (parse), theorems Properties/C11.v, correspo
 lef21::LefLibrary::open / to_string through harness/src/bin/c04.rs (ops "rt", "time")."""
 import json, os, re, subprocess, sys, time
 from vlib import *
+from props.kernelcommon import kernel_tie_leg
 from props.lefcommon import *
 
 HARNESS_BINS = ["c04"]
@@ -287,6 +288,7 @@ def run(chk, replay=None):
         chk.broken.append("translator (Lef/LefParseG.v): " + (g.stderr or g.stdout)[-300:])
     chk.proof_leg(["Lef/LefCheck.vo", "Lef/LefPack.vo"], "Properties/C11.v",
                   ["Lef/LefLex_proofs.v", "Lef/LefParse_proofs.v", "Lef/LefSafety_proofs.v", "Lef/LefCount_proofs.v"], "Properties.C11")
+    kernel_tie_leg(chk, "lef_parse")      # LefParser token helpers and parse_density generated from lef21/src/read.rs = Lef/LefParse.v (Properties/KernelsLef.v)
     chk.assumptions += [
         "rust_decimal's Decimal::from_str is an external library: specified in Lef/LefDec.v from its source and validated by the correspondence; panics inside it are outside the model",
         "derive_builder `build()` and std formatting are modelled by their documented behaviour",
